@@ -424,7 +424,8 @@ impl Debug for FramesDebug {
 
 pub(crate) fn num_frames(frames: &[Frame], slice: Option<(usize, usize)>) -> usize {
 	if let Some((start, end)) = slice {
-		end - start
+		// `slice` is a public field: only count the frames that exist inside it
+		end.min(frames.len()).saturating_sub(start)
 	} else {
 		frames.len()
 	}
